@@ -81,3 +81,4 @@ pub fn for_each_case(mut f: impl FnMut(&str) -> String + std::panic::UnwindSafe 
         writeln!(out, "{r}").unwrap();
     }
 }
+pub mod e2e;
